@@ -5,7 +5,7 @@
 set -e
 rm -rf /tmp/vsweep /tmp/vsweep_repo
 mkdir -p /tmp/vsweep_repo
-rsync -a --exclude .git /repo/ /tmp/vsweep_repo/
+git -C /repo archive HEAD | tar -x -C /tmp/vsweep_repo; cp /repo/go.sum /tmp/vsweep_repo/go.sum
 rsync -a --exclude build --exclude replays /verif/ /tmp/vsweep/
 sed -i 's#=> /repo#=> /tmp/vsweep_repo#' /tmp/vsweep/harness/go.mod
 cd /tmp/vsweep
